@@ -140,3 +140,30 @@ package route
 //@        sent(d[j].In) == (j == h.Ring[idx].DestinationIndex ? old(sent(d[j].In)) ++ elemOf(buf) : old(sent(d[j].In)))))
 //@   ensures[no_other]   forall ch ref :: (forall j int :: 0 <= j && j < len(d) ==> d[j].In != ch) ==> sentAt("[]uint8", ch) == old(sentAt("[]uint8", ch))
 //@   ensures[unparsable] bindex(B, 32) <= 0 ==> (forall ch ref :: sentAt("[]uint8", ch) == old(sentAt("[]uint8", ch)))
+
+// ---------------------------------------------------------------- grafananet.go / dispatch.go (C14, C17)
+//@ func dispatchNonBlocking(buf chan []byte, in []byte, gauge metrics.Gauge, drops metrics.Counter)
+//@   property C17
+//@   nonblocking
+//@   requires buf != nil && !closed(buf) && drops != nil
+//@   modifies sent(buf), drops.count
+//@   ensures[buffered_or_counted] (sent(buf) == old(sent(buf)) ++ elemOf(in) && drops.count == old(drops.count))
+//@        || (sent(buf) == old(sent(buf)) && drops.count == old(drops.count) + 1)
+//@
+//@ func dispatchBlocking(buf chan []byte, in []byte, gauge metrics.Gauge, drops metrics.Counter)
+//@   property C17
+//@   requires buf != nil && !closed(buf)
+//@   modifies sent(buf)
+//@   ensures[never_dropped] sent(buf) == old(sent(buf)) ++ elemOf(in)
+//@
+//@ // a function-typed field: every function stored there has this frame
+//@ func (route *GrafanaNet) dispatch(buf chan []byte, in []byte, gauge metrics.Gauge, drops metrics.Counter)
+//@   requires buf != nil && !closed(buf) && drops != nil
+//@   modifies sent(buf), drops.count
+//@
+//@ func (route *GrafanaNet) Dispatch(buf []byte)
+//@   property C14,C17
+//@   requires route.Cfg.Concurrency > 0 && route.Cfg.Concurrency < 4294967296 && len(route.in) == route.Cfg.Concurrency && route.numDropBuffFull != nil
+//@   requires forall j int :: 0 <= j && j < len(route.in) ==> route.in[j] != nil && !closed(route.in[j])
+//@   modifies *
+//@   ensures[buf_kept; C04] buf[..] == old(buf[..])
